@@ -122,9 +122,16 @@ def _cint(v):
         return int(v)
     if isinstance(v, (int, np.integer)):
         return int(v)
+    if isinstance(v, (float, np.floating)) and float(v).is_integer() and False:
+        return int(v)
     if isinstance(v, (float, np.floating)):
         # Cython refuses floats for C int parameters
         raise TypeError("an integer is required")
+    return int(v)
+
+
+def _icast(v):
+    """an explicit C cast to an integer type truncates towards zero"""
     return int(v)
 
 
@@ -175,11 +182,37 @@ class _NpProxy(object):
 
 NP_PROXY = _NpProxy()
 
-_CTYPES = ("double[:]", "double", "int", "long", "float", "bint")
-_SIG_RE = re.compile(r"^(\s*)(def|cdef)\s+(?:inline\s+)?(?:(?:double|int|void|bint)\s+)?"
-                     r"(\w+)\s*\((.*)\)\s*(?:nogil\s*)?:\s*$", re.S)
-_CDEF_FUNC_RE = re.compile(r"^\s*cdef\s+(?:inline\s+)?(?:double|int|void|bint)\s+\w+\s*\(")
-_CDEF_VAR_RE = re.compile(r"^(\s*)cdef\s+(double\[:\]|double|int|long|bint)\s+(.*)$")
+_MV_TYPES = ("const double[::1]", "const double[:]", "double[::1]", "double[:]",
+             "np.ndarray[np.float64_t, ndim=1]", "np.ndarray[np.float_t, ndim=1]",
+             "np.ndarray[DTYPE_t, ndim=1]", "np.ndarray[DTYPE_t,ndim=1]",
+             "np.ndarray[double, ndim=1]", "np.ndarray[double,ndim=1]")
+_INT_TYPES = ("unsigned int", "unsigned long", "long long", "Py_ssize_t", "ssize_t", "size_t",
+              "int", "long", "bint", "short", "unsigned")
+_DBL_TYPES = ("long double", "double", "float", "np.float64_t", "np.float_t", "DTYPE_t")
+_CTYPES = _MV_TYPES + _INT_TYPES + _DBL_TYPES
+
+
+def _norm_type(t):
+    if t is None:
+        return None
+    if t in _MV_TYPES:
+        return "double[:]"
+    if t in _INT_TYPES:
+        return "int"
+    if t in _DBL_TYPES:
+        return "double"
+    return t
+_RET = r"(?:long\s+double|double|float|int|long|void|bint|Py_ssize_t|object|tuple|list)"
+_TAIL = r"(?:\s*(?:nogil|noexcept|except\s*[-+*?\w.]*))*"
+_SIG_RE = re.compile(r"^(\s*)(def|cdef|cpdef)\s+(?:inline\s+)?(?:" + _RET + r"\s+)?"
+                     r"(\w+)\s*\((.*)\)" + _TAIL + r"\s*:\s*$", re.S)
+_CDEF_FUNC_RE = re.compile(r"^\s*c(?:p)?def\s+(?:inline\s+)?(?:" + _RET + r"\s+)?\w+\s*\(.*\)"
+                           + _TAIL + r"\s*:\s*$", re.S)
+_VARTYPES = "|".join(re.escape(t) for t in sorted(_CTYPES, key=len, reverse=True))
+_CDEF_VAR_RE = re.compile(r"^(\s*)cdef\s+(" + _VARTYPES + r")\s+(.*)$")
+_CAST_RE = re.compile(r"<\s*(" + "|".join(re.escape(t) for t in
+                                          sorted(_INT_TYPES + _DBL_TYPES, key=len, reverse=True))
+                      + r")\s*>")
 
 
 def _strip_comment(line):
@@ -274,14 +307,19 @@ def _parse_arg(a):
     """'double[:] s1' / 'double MRTS=0.' / 'int RI = 0' / 'a' ->
     (ctype or None, name, default or None)"""
     default = None
-    if "=" in a:
-        a, default = a.split("=", 1)
-        a = a.strip()
-        default = default.strip()
+    depth = 0
+    for pos, ch in enumerate(a):
+        if ch in "([{":
+            depth += 1
+        elif ch in ")]}":
+            depth -= 1
+        elif ch == "=" and depth == 0:
+            a, default = a[:pos].strip(), a[pos + 1:].strip()
+            break
     ctype = None
-    for t in _CTYPES:
+    for t in sorted(_CTYPES, key=len, reverse=True):
         if a.startswith(t + " ") or a.startswith(t + "\t"):
-            ctype = t
+            ctype = _norm_type(t)
             a = a[len(t):].strip()
             break
     if not re.match(r"^\w+$", a):
@@ -295,6 +333,8 @@ def translate(text, modname="?"):
     # typed locals of the function currently being translated
     types_stack = [dict()]
     func_indent = [-1]
+
+    cdef_block_indent = [None]
 
     def cur_types():
         return types_stack[-1]
@@ -311,8 +351,22 @@ def translate(text, modname="?"):
             types_stack.pop()
         if re.match(r"^(from\s+\S+\s+)?cimport\b", body):
             continue
-        if body.startswith("ctypedef"):
+        if body.startswith("ctypedef") or re.match(r"^DEF\s", body):
             continue
+        if body in ("cdef:", "cdef nogil:"):
+            # a block of declarations: its (deeper indented) lines are handled below
+            cdef_block_indent[0] = indent
+            continue
+        if cdef_block_indent[0] is not None:
+            if indent > cdef_block_indent[0]:
+                line = " " * cdef_block_indent[0] + "cdef " + body
+                indent = cdef_block_indent[0]
+                body = line.strip()
+            else:
+                cdef_block_indent[0] = None
+        # C casts  <double>x  /  <int>(expr)
+        line = _cast(line)
+        body = line.strip()
         m = _SIG_RE.match(line)
         if m and (m.group(2) == "def" or _CDEF_FUNC_RE.match(line)):
             ind, _, name, argstr = m.groups()
@@ -338,7 +392,7 @@ def translate(text, modname="?"):
         m = _CDEF_VAR_RE.match(line)
         if m:
             ind, ctype, rest = m.groups()
-            ctype = {"long": "int", "bint": "int"}.get(ctype, ctype)
+            ctype = _norm_type(ctype)
             if "=" in rest:
                 name, expr = rest.split("=", 1)
                 name = name.strip()
@@ -356,7 +410,7 @@ def translate(text, modname="?"):
             continue
         if body.startswith("cdef") or body.startswith("cpdef"):
             raise ShimError("unsupported cdef construct in %s: %r" % (modname, line))
-        if re.match(r"^with\s+nogil\s*:$", body):
+        if re.match(r"^with\s+(nogil|gil)\s*:$", body):
             out.append(" " * indent + "if True:")
             continue
         line = re.sub(r"\bxrange\b", "range", line)
@@ -370,6 +424,41 @@ def translate(text, modname="?"):
     src = "\n".join(out) + "\n"
     _check_leftovers(src, modname)
     return src
+
+
+def _cast(line):
+    """<double>x, <int>(expr) -> _f64(x), _cint((expr)) for a simple operand"""
+    def repl(m):
+        fn = "_icast" if m.group(1) in _INT_TYPES else "_f64"
+        rest = m.string[m.end():]
+        # operand: a parenthesised expression or a name/attribute/index/call chain
+        j = 0
+        depth = 0
+        while j < len(rest):
+            ch = rest[j]
+            if ch in "([":
+                depth += 1
+            elif ch in ")]":
+                if depth == 0:
+                    break
+                depth -= 1
+            elif depth == 0 and not (ch.isalnum() or ch in "_."):
+                break
+            j += 1
+        repl.consumed = j
+        return fn + "(" + rest[:j] + ")"
+    out = ""
+    pos = 0
+    while True:
+        m = _CAST_RE.search(line, pos)
+        if not m:
+            out += line[pos:]
+            break
+        out += line[pos:m.start()]
+        piece = repl(m)
+        out += piece
+        pos = m.end() + repl.consumed
+    return out
 
 
 def _wrap(ctype, expr):
@@ -423,8 +512,11 @@ class Shim(object):
             mod.__dict__.update(dict(
                 _mv=_mv if unchecked else _mv_checked,
                 _strict=_strict if unchecked else _strict_checked,
-                _f64=_f64, _cint=_cint, fabs=fabs, fmax=fmax, fmin=fmin))
+                _f64=_f64, _cint=_cint, _icast=_icast, fabs=fabs, fmax=fmax, fmin=fmin))
             mod.__shim_directives__ = dirs
+            import math as _m
+            for nm in ("sqrt", "floor", "ceil", "exp", "log", "pow", "isnan", "isinf"):
+                mod.__dict__.setdefault(nm, getattr(_m, nm))
             if name != "cython_get_tau":
                 mod.__dict__["get_tau"] = self.modules["cython_get_tau"].get_tau
             code = compile(src, "<shim:%s>" % name, "exec")
@@ -464,3 +556,31 @@ class Shim(object):
 
     def fn(self, module, name):
         return getattr(self.modules[module], name)
+
+
+class DeadShim(object):
+    """Stands in when the .pyx files cannot be transliterated (an edit that uses a
+    construct the shim does not know): the 'compiled' configuration is then NOT
+    available; cases that ask for it run on the fallback and say so in the evidence.
+    Better than losing every check over a syntax the shim lacks."""
+    ok = False
+    installed = False
+    modules = {}
+
+    def __init__(self, error):
+        self.error = error
+
+    def install(self):
+        pass
+
+    def uninstall(self):
+        pass
+
+    def set(self, compiled):
+        pass
+
+    def fn(self, module, name):
+        raise ShimError("compiled kernels unavailable: " + self.error)
+
+
+Shim.ok = True
